@@ -12,6 +12,26 @@ NOT_BUILT = "check not built yet in this round (claimed by DESIGN.md; " \
             "listed here until its static check exists and is exact)"
 
 CHECKS = {
+    "C01": {
+        "text": "Decides the clauses of packing feasibility that live in "
+                "the shape of the code: the rotation lemma on all weak "
+                "orderings of (w,h,W,H) accepted by the constructor; "
+                "rectangle size preserved by every move and equal to (w,h) "
+                "at every placement; coordinates bounded below by 0 and the "
+                "keep path implying right<=W, top<=H on all orderings; the "
+                "stored id is |x[i]|; the bin counter protocol (start 1, "
+                "step 1, each new value stored, returned); the packing "
+                "dtype covers H+h and n_items.",
+        "design_ref": "DESIGN.md section 4, C01",
+        "note": "PARTIAL: non-overlap of placed rectangles is NOT decided "
+                "(needs an inductive geometric invariant - outside this "
+                "family); a changed collision comparison is reported under "
+                "C14's rule equivalence instead. Bin ids within 1..n_items "
+                "are decided under C13.",
+        "technique": "exhaustive weak-ordering enumeration + symbolic "
+                     "normal forms (polynomial identities) + structural "
+                     "protocol rules",
+    },
     "C14": {
         "text": "The four move kernels are summarised into guarded-min "
                 "normal forms whose per-blocker limit is compared with the "
